@@ -75,6 +75,9 @@ func (x *g) genGadgetService() {
 			{Name: "sizes", Type: &spec.Type{Kind: spec.Array, Elem: &spec.Attr{Type: intT()}}, Default: []any{vtree.I(10), vtree.I(20)}, HasDef: true},
 			{Name: "flags", Type: &spec.Type{Kind: spec.Array, Elem: &spec.Attr{Type: &spec.Type{Kind: spec.Boolean}}}, Default: []any{vtree.B(true), vtree.B(false)}, HasDef: true},
 			{Name: "note", Type: str()},
+			// collections with non-empty defaults in the BODY: unset takes the default, explicitly empty stays empty
+			{Name: "tags", Type: &spec.Type{Kind: spec.Array, Elem: &spec.Attr{Type: str()}}, Default: []any{vtree.S("a"), vtree.S("b")}, HasDef: true},
+			{Name: "limits", Type: &spec.Type{Kind: spec.Map, Key: &spec.Attr{Type: str()}, Elem: &spec.Attr{Type: intT()}}, Default: vtree.MkMap(map[string]any{"s:base": vtree.I(1)}), HasDef: true},
 		}}},
 		HTTP: &spec.HTTP{Routes: []spec.Route{{Verb: "POST", Path: "/sizes"}},
 			Query: []spec.Loc{{Attr: "sizes"}}, Headers: []spec.Loc{{Attr: "flags", Wire: "X-G-Flags"}}}}
